@@ -127,6 +127,119 @@ def main():
             out["oracle_bad"].append({"oracle": "program:" + name, "x": x.tolist(),
                                       "problems": ["raised (a write into read-only memory raises ValueError): %r" % (ex,)],
                                       "site": {"oracle": "purity"}})
+    # ---- (C) random polynomial DAGs over arrays: every accumulation order and sharing pattern ----
+    from autograd.builtins import tuple as atuple, list as alist
+    for rep in range(cfg.get("n_dags", 0)):
+        n_leaf = 3
+        x = ro([rng.randint(-2, 2) for _ in range(n_leaf)])
+        consts = [ro([rng.randint(1, 3) for _ in range(n_leaf)]) for _ in range(2)]
+        plan = []
+        n_nodes = rng.randint(4, 9)
+        for i in range(n_nodes):
+            kind = rng.choice(["add", "add", "mul", "sq", "cube", "scale"])
+            a = rng.randrange(-1, i) if i else -1          # -1 = the input itself
+            b = rng.randrange(-1, i) if i else -1
+            plan.append((kind, a, b, rng.randrange(2)))
+        terms = [rng.randrange(n_nodes) for _ in range(rng.randint(2, 5))]
+        assoc_left = rng.random() < 0.5
+
+        def f(z, plan=plan, terms=terms, assoc_left=assoc_left, consts=consts):
+            vals = []
+            get = lambda j: z if j < 0 else vals[j]  # noqa: E731
+            for kind, a, b, c in plan:
+                if kind == "add":
+                    vals.append(get(a) + get(b))
+                elif kind == "mul":
+                    vals.append(get(a) * get(b))
+                elif kind == "sq":
+                    vals.append(get(a) ** 2)
+                elif kind == "cube":
+                    vals.append(get(a) ** 3)
+                else:
+                    vals.append(get(a) * consts[c])
+            ts = [vals[t] for t in terms]
+            acc = ts[0]
+            for t in (ts[1:] if assoc_left else ts[1:][::-1]):
+                acc = (acc + t) if assoc_left else (t + acc)
+            return acc
+        out["oracle_n"] += 1
+        out["oracle_keys"].append("dag" + str(plan) + str(terms))
+        dist("program:random-dag")
+        try:
+            y = f(x)
+            if not onp.all(onp.abs(y) < 2 ** 40):
+                continue
+            g = ro([rng.randint(-2, 2) for _ in range(n_leaf)])
+            v = ro([rng.randint(-2, 2) for _ in range(n_leaf)])
+            vjp, _ = make_vjp(f)(x)
+            r1 = vjp(g)
+            jt = make_jvp(f)(x)(v)[1]
+            probs = []
+            if float(onp.sum(g * jt)) != float(onp.sum(onp.asarray(r1) * v)):
+                probs.append("<g, jvp v> = %r but <vjp g, v> = %r: the backward accumulation is wrong"
+                             % (float(onp.sum(g * jt)), float(onp.sum(onp.asarray(r1) * v))))
+            if not onp.all(onp.asarray(vjp(g)) == onp.asarray(r1)):
+                probs.append("a second call of the same vjp returned a different answer")
+            if probs:
+                out["oracle_bad"].append({"oracle": "random-dag", "plan": plan, "terms": terms, "x": x.tolist(),
+                                          "g": g.tolist(), "problems": probs, "site": {"oracle": "purity"}})
+        except Exception as ex:
+            out["oracle_bad"].append({"oracle": "random-dag", "plan": plan, "terms": terms, "x": x.tolist(),
+                                      "problems": ["raised %r" % (ex,)], "site": {"oracle": "purity"}})
+    # ---- (D) container-valued arguments and results: dense and indexed contributions to one container ----
+    for rep in range(cfg.get("n_cont", 0)):
+        k = rng.randint(2, 3)
+        xt = tuple(ro([rng.randint(-2, 2) for _ in range(2)]) for _ in range(k))
+        cst = ro([rng.randint(1, 3) for _ in range(2)])
+        uses = [rng.choice(["take", "take", "extend", "rextend", "whole", "self", "self"]) for _ in range(rng.randint(2, 5))]
+        idxs = [rng.randrange(k) for _ in uses]
+
+        def f(t, uses=uses, idxs=idxs, cst=cst, k=k):
+            outs = []
+            for u, i in zip(uses, idxs):
+                if u == "take":
+                    outs.append(t[i] * cst)
+                elif u == "extend":
+                    outs.append((t + (cst,))[i])
+                elif u == "rextend":
+                    outs.append(((cst,) + t)[i + 1])
+                elif u == "self":
+                    outs.append(t)              # the whole container is part of the result
+                else:
+                    outs.append(atuple([t[j] for j in range(k)])[i])
+            return alist(outs)
+        out["oracle_n"] += 1
+        out["oracle_keys"].append("cont" + str(uses) + str(idxs))
+        dist("program:container-mixed")
+        try:
+            vjp, y = make_vjp(f)(xt)
+            g = [tuple(ro([rng.randint(-2, 2) for _ in range(2)]) for _ in range(k)) if u == "self"
+                 else ro([rng.randint(-2, 2) for _ in range(2)]) for u in uses]
+            g0 = copy.deepcopy(g)
+            exp = [onp.zeros(2) for _ in range(k)]
+            for u, i, gg in zip(uses, idxs, g0):
+                if u == "self":
+                    for j in range(k):
+                        exp[j] = exp[j] + gg[j]
+                else:
+                    exp[i] = exp[i] + (gg * cst if u == "take" else gg)
+            r1 = vjp(g)
+            r2 = vjp(g)
+            probs = []
+            if not all(onp.all(a == b) for a, b in zip(r1, exp)):
+                probs.append("container gradient differs from the leaf-wise sum")
+            if not all(onp.all(a == b) for a, b in zip(r1, r2)):
+                probs.append("a second call of the same vjp returned a different answer")
+            flat = lambda q: [a for e in q for a in (e if isinstance(e, tuple) else (e,))]  # noqa: E731
+            if not all(onp.all(a == b) for a, b in zip(flat(g), flat(g0))):
+                probs.append("the caller's cotangent was modified")
+            if probs:
+                out["oracle_bad"].append({"oracle": "container-mixed", "uses": uses, "idxs": idxs, "problems": probs,
+                                          "site": {"oracle": "purity"}})
+        except Exception as ex:
+            out["oracle_bad"].append({"oracle": "container-mixed", "uses": uses, "idxs": idxs,
+                                      "problems": ["raised (a write into read-only memory raises ValueError): %r" % (ex,)],
+                                      "site": {"oracle": "purity"}})
     print(json.dumps(out))
 
 
